@@ -14,6 +14,17 @@ type Sub struct {
 	S string
 }
 
+// Item is an element of a method result; Expensive is counted.
+type Item struct {
+	V     int64
+	Calls int
+}
+
+func (it *Item) Expensive() bool {
+	it.Calls++
+	return it.V > 0
+}
+
 type Fact struct {
 	I   int64
 	J   int64
@@ -44,6 +55,8 @@ type Fact struct {
 	M   map[string]int64
 	PI  *int64
 	Any interface{}
+	NilM map[string]int64 // stays nil: writing an entry fails inside reflect
+	items []*Item
 
 	// sinks of the expression harness
 	RI int64
@@ -61,6 +74,17 @@ type Fact struct {
 func (f *Fact) Heavy(a int64) bool {
 	f.HeavyCalls++
 	return a > 10
+}
+
+// Items returns the same elements on every call (side-effect free).
+func (f *Fact) Items() []*Item { return f.items }
+
+// ItemCalls reports how often the first element's counted method ran.
+func (f *Fact) ItemCalls() int {
+	if len(f.items) == 0 {
+		return 0
+	}
+	return f.items[0].Calls
 }
 
 // GetI is a counted accessor.
@@ -152,6 +176,7 @@ func newFact(tag string, shape int) *Fact {
 	f.PI = &pi
 	f.T = time.Unix(smallInt(tag+".T.sec")+1700000000, 0).UTC()
 	f.T2 = time.Unix(smallInt(tag+".T2.sec")+1700000000, 0).UTC()
+	f.items = []*Item{{V: smallInt(tag + ".item0")}, {V: smallInt(tag + ".item1")}}
 	f.PanicAt = 7
 	return f
 }
@@ -210,5 +235,6 @@ func copyFact(f *Fact) *Fact {
 	pi := *f.PI
 	g.PI = &pi
 	g.Log = nil
+	g.items = []*Item{{V: f.items[0].V}, {V: f.items[1].V}}
 	return &g
 }
